@@ -42,9 +42,6 @@ class BirthDeathModel(CallableModel):
         self.origin = origin
         self.survival = survival
 
-    def handle_model_changed(self, model, obj, index):
-        pass
-
     def _sample_shape(self) -> torch.Size:
         return max(
             self.tree_model.node_heights.shape[:-1], self.lambda_.shape[:-1], key=len
